@@ -42,8 +42,8 @@ def send_wrappers(facts):
     a value passed through them has been sent"""
     out = set()
     for name, b in mpc_bodies(facts):
-        if b.kind == "closure" or not has_node(b.local_ty(0)):
-            continue
+        if not has_node(b.local_ty(0)):
+            continue        # (local closures such as `|v, from, to| v.nop()?.add_annotation(Send(from, to))` are wrappers too)
         nops = [bb for bb, t in b.calls() if callee_name(t) in NOPS and not b.is_cleanup(bb)]
         if not nops:
             continue
